@@ -1,3 +1,563 @@
 package main
 
-func replayScalar(e *Engine, r *Result) {}
+// Replay of solver models on the real code: the model's values for the
+// function's inputs become an in-package Go test injected with -overlay
+// (nothing is written to the repository); the outputs observed on the real
+// function are then checked against the contract by a ground SMT query.
+//
+// Supported inputs: integers, booleans, struct values built from them
+// (Number, YRange, ...), slices of those, strings whose bytes the model fixes.
+// Anything else (heap-shaped inputs) is reported with no-failing-input-found.
+
+import (
+	"bytes"
+	"context"
+	"encoding/json"
+	"fmt"
+	"go/types"
+	"os"
+	"os/exec"
+	"path/filepath"
+	"regexp"
+	"strings"
+	"time"
+)
+
+type sx struct {
+	atom string
+	list []*sx
+}
+
+func (s *sx) String() string {
+	if s.list == nil {
+		return s.atom
+	}
+	var p []string
+	for _, c := range s.list {
+		p = append(p, c.String())
+	}
+	return "(" + strings.Join(p, " ") + ")"
+}
+
+func parseSexprs(src string) []*sx {
+	var out []*sx
+	i := 0
+	var parse func() *sx
+	skip := func() {
+		for i < len(src) {
+			if src[i] == ';' {
+				for i < len(src) && src[i] != '\n' {
+					i++
+				}
+			} else if src[i] == ' ' || src[i] == '\n' || src[i] == '\t' || src[i] == '\r' {
+				i++
+			} else {
+				break
+			}
+		}
+	}
+	parse = func() *sx {
+		skip()
+		if i >= len(src) {
+			return nil
+		}
+		if src[i] == '(' {
+			i++
+			n := &sx{list: []*sx{}}
+			for {
+				skip()
+				if i >= len(src) {
+					return n
+				}
+				if src[i] == ')' {
+					i++
+					return n
+				}
+				c := parse()
+				if c == nil {
+					return n
+				}
+				n.list = append(n.list, c)
+			}
+		}
+		if src[i] == '"' {
+			j := i + 1
+			for j < len(src) && src[j] != '"' {
+				j++
+			}
+			a := src[i : j+1]
+			i = j + 1
+			return &sx{atom: a}
+		}
+		if src[i] == '|' {
+			j := i + 1
+			for j < len(src) && src[j] != '|' {
+				j++
+			}
+			a := src[i : j+1]
+			i = j + 1
+			return &sx{atom: a}
+		}
+		j := i
+		for j < len(src) && !strings.ContainsRune(" \n\t\r()", rune(src[j])) {
+			j++
+		}
+		a := src[i:j]
+		i = j
+		return &sx{atom: a}
+	}
+	for {
+		skip()
+		if i >= len(src) {
+			break
+		}
+		if src[i] == ')' {
+			i++
+			continue
+		}
+		n := parse()
+		if n == nil {
+			break
+		}
+		out = append(out, n)
+	}
+	return out
+}
+
+// modelDefs extracts (define-fun name () Sort value) entries of a model.
+func modelDefs(model string) map[string]*sx {
+	defs := map[string]*sx{}
+	var walk func(n *sx)
+	walk = func(n *sx) {
+		if n.list == nil {
+			return
+		}
+		if len(n.list) == 5 && n.list[0].atom == "define-fun" && n.list[2].list != nil && len(n.list[2].list) == 0 {
+			defs[n.list[1].atom] = n.list[4]
+			return
+		}
+		for _, c := range n.list {
+			walk(c)
+		}
+	}
+	for _, n := range parseSexprs(model) {
+		walk(n)
+	}
+	return defs
+}
+
+func sxInt(n *sx) (string, bool) {
+	if n.list == nil {
+		if regexp.MustCompile(`^[0-9]+$`).MatchString(n.atom) {
+			return n.atom, true
+		}
+		return "", false
+	}
+	if len(n.list) == 2 && n.list[0].atom == "-" {
+		if v, ok := sxInt(n.list[1]); ok {
+			return "-" + v, true
+		}
+	}
+	return "", false
+}
+
+// goLiteral converts a model value to a Go literal of type t (package-local names).
+func (e *Engine) goLiteral(n *sx, t types.Type, pkg *types.Package) (string, bool) {
+	qual := func(p *types.Package) string {
+		if p == pkg {
+			return ""
+		}
+		return p.Name()
+	}
+	ts := types.TypeString(t, qual)
+	switch u := t.Underlying().(type) {
+	case *types.Basic:
+		switch {
+		case u.Info()&types.IsBoolean != 0:
+			if n.atom == "true" || n.atom == "false" {
+				return ts + "(" + n.atom + ")", true
+			}
+		case u.Info()&types.IsInteger != 0:
+			if v, ok := sxInt(n); ok {
+				return ts + "(" + v + ")", true
+			}
+		}
+	case *types.Struct:
+		if n.list == nil {
+			if strings.HasPrefix(n.atom, "mk-") && u.NumFields() == 0 {
+				return ts + "{}", true
+			}
+			return "", false
+		}
+		if len(n.list) != u.NumFields()+1 {
+			return "", false
+		}
+		var parts []string
+		for i := 0; i < u.NumFields(); i++ {
+			l, ok := e.goLiteral(n.list[i+1], u.Field(i).Type(), pkg)
+			if !ok {
+				return "", false
+			}
+			parts = append(parts, u.Field(i).Name()+": "+l)
+		}
+		return ts + "{" + strings.Join(parts, ", ") + "}", true
+	}
+	return "", false
+}
+
+// smtPrinter returns Go code printing value expr of type t as an SMT term.
+func (e *Engine) smtPrinter(expr string, t types.Type) (string, bool) {
+	switch u := t.Underlying().(type) {
+	case *types.Basic:
+		switch {
+		case u.Info()&types.IsBoolean != 0:
+			return fmt.Sprintf("fmt.Sprintf(\"%%t\", bool(%s))", expr), true
+		case u.Info()&types.IsInteger != 0:
+			if u.Info()&types.IsUnsigned != 0 {
+				return fmt.Sprintf("fmt.Sprintf(\"%%d\", uint64(%s))", expr), true
+			}
+			return fmt.Sprintf("govcInt(int64(%s))", expr), true
+		}
+	case *types.Interface:
+		return fmt.Sprintf("govcIface(%s)", expr), true
+	case *types.Struct:
+		sn := e.sortOf(t)
+		if u.NumFields() == 0 {
+			return fmt.Sprintf("%q", "mk-"+sn), true
+		}
+		var parts []string
+		for i := 0; i < u.NumFields(); i++ {
+			p, ok := e.smtPrinter(expr+"."+u.Field(i).Name(), u.Field(i).Type())
+			if !ok {
+				return "", false
+			}
+			parts = append(parts, p)
+		}
+		return fmt.Sprintf("\"(mk-%s \" + %s + \")\"", sn, strings.Join(parts, " + \" \" + ")), true
+	}
+	return "", false
+}
+
+const replayHelpers = `
+func govcInt(v int64) string {
+	if v < 0 {
+		if v == -9223372036854775808 {
+			return "(- 9223372036854775808)"
+		}
+		return fmt.Sprintf("(- %d)", -v)
+	}
+	return fmt.Sprintf("%d", v)
+}
+
+func govcIface(v interface{}) string {
+	if v == nil {
+		return "(mk-iface 0 0)"
+	}
+	return "(mk-iface 1 1)"
+}
+`
+
+type replayFile struct {
+	Property   string            `json:"property"`
+	Obligation string            `json:"obligation"`
+	Function   string            `json:"function"`
+	Inputs     map[string]string `json:"inputs"`
+	TestSource string            `json:"test_source"`
+	PkgDir     string            `json:"pkg_dir"`
+	Observed   string            `json:"observed,omitempty"`
+	Verdict    string            `json:"verdict,omitempty"`
+}
+
+// findModel returns a model for a failed obligation: the solver's own if it
+// answered sat, else one from the same query with quantified assertions
+// dropped (a candidate only; the replay on the real code decides).
+func findModel(r *Result) (string, string) {
+	if r.Status == "sat" && r.Model != "" {
+		return r.Model, "solver model"
+	}
+	data, err := os.ReadFile(r.File)
+	if err != nil {
+		return "", ""
+	}
+	var keep []string
+	for _, l := range strings.Split(string(data), "\n") {
+		if strings.Contains(l, "(forall ") || strings.Contains(l, "(exists ") {
+			if strings.HasPrefix(l, "(assert (not ") {
+				// the negated goal must stay
+				keep = append(keep, l)
+			}
+			continue
+		}
+		keep = append(keep, l)
+	}
+	tmp := r.File + ".qfree.smt2"
+	os.WriteFile(tmp, []byte(strings.Join(keep, "\n")), 0o644)
+	ctx, cancel := context.WithTimeout(context.Background(), 12*time.Second)
+	defer cancel()
+	out, _ := exec.CommandContext(ctx, "z3-new", "-T:10", tmp).CombinedOutput()
+	if firstLine(string(out)) == "sat" {
+		return string(out), "candidate model from the query without quantified assumptions"
+	}
+	return "", ""
+}
+
+func replayScalar(e *Engine, r *Result) {
+	o := r.Obl
+	vc := o.vc
+	if vc == nil || vc.fn == nil || vc.topFrame == nil {
+		return
+	}
+	if !o.LoopFree && o.Kind != "ensures" && o.Kind != "nowrap" && o.Kind != "safety" {
+		r.replayNote = "obligation lies behind a loop cut: its model is not an execution"
+		return
+	}
+	model, how := findModel(r)
+	if model == "" {
+		r.replayNote = "the solvers returned no model"
+		return
+	}
+	defs := modelDefs(model)
+	fn := vc.fn
+	pkg := fn.Pkg.Pkg
+	inputs := map[string]string{}
+	var argExprs []string
+	for _, p := range fn.Params {
+		tv := vc.topFrame.params[p.Name()]
+		d, ok := defs[tv.T]
+		if !ok {
+			// unconstrained by the model: zero value
+			lit, ok2 := zeroLiteral(p.Type(), pkg)
+			if !ok2 {
+				r.replayNote = "input " + p.Name() + " of type " + p.Type().String() + " cannot be built from a model"
+				return
+			}
+			inputs[p.Name()] = lit
+			argExprs = append(argExprs, lit)
+			continue
+		}
+		lit, ok := e.goLiteral(d, p.Type(), pkg)
+		if !ok {
+			r.replayNote = "input " + p.Name() + " of type " + p.Type().String() + " cannot be built from a model"
+			return
+		}
+		inputs[p.Name()] = lit
+		argExprs = append(argExprs, lit)
+	}
+	// call expression
+	var call string
+	sig := fn.Signature
+	if sig.Recv() != nil {
+		call = "(" + argExprs[0] + ")." + fn.Name() + "(" + strings.Join(argExprs[1:], ", ") + ")"
+	} else {
+		call = fn.Name() + "(" + strings.Join(argExprs, ", ") + ")"
+	}
+	var resNames, printers []string
+	for i := 0; i < sig.Results().Len(); i++ {
+		rn := fmt.Sprintf("r%d", i)
+		resNames = append(resNames, rn)
+		pr, ok := e.smtPrinter(rn, sig.Results().At(i).Type())
+		if !ok {
+			r.replayNote = "result type " + sig.Results().At(i).Type().String() + " cannot be read back"
+			return
+		}
+		printers = append(printers, pr)
+	}
+	var src bytes.Buffer
+	fmt.Fprintf(&src, "package %s\n\nimport (\n\t\"fmt\"\n\t\"testing\"\n)\n%s\n", pkg.Name(), replayHelpers)
+	fmt.Fprintf(&src, "func TestGovcReplay(t *testing.T) {\n\tdefer func() {\n\t\tif r := recover(); r != nil {\n\t\t\tfmt.Printf(\"GOVC-PANIC %%v\\n\", r)\n\t\t}\n\t}()\n")
+	if len(resNames) > 0 {
+		fmt.Fprintf(&src, "\t%s := %s\n", strings.Join(resNames, ", "), call)
+		for i, p := range printers {
+			fmt.Fprintf(&src, "\tfmt.Printf(\"GOVC-RESULT %d %%s\\n\", %s)\n", i, p)
+		}
+	} else {
+		fmt.Fprintf(&src, "\t%s\n", call)
+	}
+	fmt.Fprintf(&src, "\tfmt.Println(\"GOVC-DONE\")\n}\n")
+	pkgDir := filepath.Dir(e.fset.Position(fn.Pos()).Filename)
+	rf := &replayFile{Function: vc.key, Inputs: inputs, TestSource: src.String(), PkgDir: pkgDir, Obligation: o.Name}
+	observed, err := runReplayTest(e.repo, rf)
+	rf.Observed = observed
+	r.replayInput = rf
+	if err != nil {
+		r.replayNote = how + "; replay could not run: " + err.Error()
+		return
+	}
+	if strings.Contains(observed, "GOVC-PANIC") {
+		r.replayed = true
+		r.replayNote = how + "; the real function panics on this input: " + observed
+		rf.Verdict = "panic on the real code"
+		return
+	}
+	// ground check of the contract on the observed outputs
+	results := map[int]string{}
+	for _, ln := range strings.Split(observed, "\n") {
+		var idx int
+		if strings.HasPrefix(ln, "GOVC-RESULT ") {
+			rest := strings.TrimPrefix(ln, "GOVC-RESULT ")
+			sp := strings.SplitN(rest, " ", 2)
+			fmt.Sscan(sp[0], &idx)
+			if len(sp) == 2 {
+				results[idx] = sp[1]
+			}
+		}
+	}
+	if len(results) != sig.Results().Len() {
+		r.replayNote = how + "; outputs could not be read: " + observed
+		return
+	}
+	bad, err := groundCheck(e, vc, defs, results)
+	if err != nil {
+		r.replayNote = how + "; ground check failed: " + err.Error()
+		return
+	}
+	if len(bad) > 0 {
+		r.replayed = true
+		rf.Verdict = "postcondition false on the real code: " + strings.Join(bad, "; ")
+		r.replayNote = how + "; replayed on the real code: inputs " + fmt.Sprint(inputs) + " give " + fmt.Sprint(results) + ", violating " + strings.Join(bad, "; ")
+		return
+	}
+	rf.Verdict = "real outputs satisfy every postcondition (the failed obligation is not observable in the outputs, or the model is spurious)"
+	r.replayNote = how + "; " + rf.Verdict
+}
+
+func zeroLiteral(t types.Type, pkg *types.Package) (string, bool) {
+	qual := func(p *types.Package) string {
+		if p == pkg {
+			return ""
+		}
+		return p.Name()
+	}
+	ts := types.TypeString(t, qual)
+	switch u := t.Underlying().(type) {
+	case *types.Basic:
+		if u.Info()&types.IsBoolean != 0 {
+			return ts + "(false)", true
+		}
+		if u.Info()&types.IsInteger != 0 {
+			return ts + "(0)", true
+		}
+		if u.Info()&types.IsString != 0 {
+			return ts + "(\"\")", true
+		}
+	case *types.Struct:
+		return ts + "{}", true
+	}
+	return "", false
+}
+
+func runReplayTest(repo string, rf *replayFile) (string, error) {
+	tmp, err := os.MkdirTemp("", "govc-replay")
+	if err != nil {
+		return "", err
+	}
+	defer os.RemoveAll(tmp)
+	testPath := filepath.Join(tmp, "zz_govc_replay_test.go")
+	os.WriteFile(testPath, []byte(rf.TestSource), 0o644)
+	ov := map[string]map[string]string{"Replace": {filepath.Join(rf.PkgDir, "zz_govc_replay_test.go"): testPath}}
+	ovData, _ := json.Marshal(ov)
+	ovPath := filepath.Join(tmp, "ov.json")
+	os.WriteFile(ovPath, ovData, 0o644)
+	ctx, cancel := context.WithTimeout(context.Background(), 120*time.Second)
+	defer cancel()
+	cmd := exec.CommandContext(ctx, "go", "test", "-overlay", ovPath, "-vet=off", "-timeout", "60s", "-run", "^TestGovcReplay$", "-count=1", "-v", ".")
+	cmd.Dir = rf.PkgDir
+	cmd.Env = append(os.Environ(), "GOFLAGS=-mod=mod", "GOPROXY=off", "GOSUMDB=off", "GOTOOLCHAIN=local")
+	out, _ := cmd.CombinedOutput()
+	var keep []string
+	for _, l := range strings.Split(string(out), "\n") {
+		if strings.HasPrefix(l, "GOVC-") {
+			keep = append(keep, l)
+		}
+	}
+	if len(keep) == 0 {
+		return string(out), fmt.Errorf("no replay output")
+	}
+	return strings.Join(keep, "\n"), nil
+}
+
+// groundCheck evaluates every ensures clause of the function on the model's
+// inputs and the observed outputs; returns the clauses that are false.
+func groundCheck(e *Engine, vc *FuncVC, defs map[string]*sx, results map[int]string) ([]string, error) {
+	fn := vc.fn
+	spec := vc.spec
+	if spec == nil {
+		return nil, nil
+	}
+	gvc := newFuncVC(e, fn)
+	gvc.reset()
+	gvc.specInfo = map[string]*specFnInfo{}
+	f := gvc.newFrame(nil, fn, "")
+	gvc.topFrame = f
+	entry := &State{m: map[string]string{}}
+	f.entry = entry
+	f.cur = entry
+	f.curReach = "true"
+	f.get(entry, gvc.allocKey())
+	for _, p := range fn.Params {
+		tv := vc.topFrame.params[p.Name()]
+		d, ok := defs[tv.T]
+		val := e.zero(p.Type())
+		if ok {
+			val = d.String()
+		}
+		f.params[p.Name()] = TV{val, p.Type()}
+	}
+	env := f.baseEnv(entry)
+	for i := 0; i < fn.Signature.Results().Len(); i++ {
+		env.results = append(env.results, TV{results[i], fn.Signature.Results().At(i).Type()})
+	}
+	env.resultNames = resultNames(fn)
+	var bad []string
+	// requires must hold on the inputs (else the model is outside the contract)
+	for _, rq := range spec.Requires {
+		tv, err := env.tr(rq.Expr)
+		if err != nil {
+			return nil, err
+		}
+		ok, err := groundEval(gvc, tv.T)
+		if err != nil {
+			return nil, err
+		}
+		if !ok {
+			return nil, fmt.Errorf("model input violates requires %s", rq.Text)
+		}
+	}
+	for i, en := range spec.Ensures {
+		tv, err := env.tr(en.Expr)
+		if err != nil {
+			return nil, err
+		}
+		ok, err := groundEval(gvc, tv.T)
+		if err != nil {
+			continue
+		}
+		if !ok {
+			bad = append(bad, clauseName(en, "ensures", i)+": "+en.Text)
+		}
+	}
+	return bad, nil
+}
+
+func groundEval(vc *FuncVC, term string) (bool, error) {
+	o := &Obligation{Name: "ground", Goal: Not(term), vc: vc, Upto: len(vc.script.lines)}
+	// goal is negated in SMT(): asserts (not (not term)) = term; sat means term can hold
+	text := o.SMT(false)
+	tmp, err := os.CreateTemp("", "govc-ground*.smt2")
+	if err != nil {
+		return false, err
+	}
+	defer os.Remove(tmp.Name())
+	tmp.WriteString(text)
+	tmp.Close()
+	ctx, cancel := context.WithTimeout(context.Background(), 12*time.Second)
+	defer cancel()
+	out, _ := exec.CommandContext(ctx, "z3-new", "-T:10", tmp.Name()).CombinedOutput()
+	switch firstLine(string(out)) {
+	case "sat":
+		return true, nil
+	case "unsat":
+		return false, nil
+	}
+	return false, fmt.Errorf("ground query undecided: %s", trimOut(string(out)))
+}
